@@ -428,6 +428,20 @@ func (ref *Node) DoGetField(r node.FieldRequest) (val.Value, error) {
 	return node.NewValue(r.Meta.Type(), v.Interface())
 }
 
+func isEmptyCollection(v reflect.Value) bool {
+	if v.Kind() == reflect.Interface || v.Kind() == reflect.Pointer {
+		v = v.Elem()
+	}
+	if !v.IsValid() {
+		return true
+	}
+	switch v.Kind() {
+	case reflect.Slice, reflect.Map:
+		return v.Len() == 0
+	}
+	return false
+}
+
 func reflectIsEmpty(v reflect.Value) bool {
 	if !v.IsValid() {
 		return true
@@ -526,6 +540,10 @@ func (ref *Node) DoGetChild(r node.ChildRequest) (node.Node, error) {
 		return nil, err
 	}
 	if ref.Options.IgnoreEmpty && !r.New && reflectIsEmpty(obj) {
+		return nil, nil
+	}
+	if meta.IsList(r.Meta) && !r.New && isEmptyCollection(obj) {
+		// a list whose last entry was deleted does not exist any more
 		return nil, nil
 	}
 	if meta.IsList(r.Meta) && r.Selection.Path.Meta != r.Meta {
